@@ -122,6 +122,9 @@ Inductive event :=
 | EAlloc (p : word) (c : contents) (root : bool)   (* alloc/new/copy: registered via GC_Set *)
 | EStore (p : word) (c : contents)                 (* any store into an object; also new_raw *)
 | ERoots (tls : list contents) (stack : list word) (* the mutator changes TLS / stack *)
+| EFinAlloc (p : word) (c : contents) (root : bool) (* alloc/new/copy issued BY A FINALISER while GC_Sweep
+                                                       runs its freelist loop: registered via GC_Set, which
+                                                       returns before the threshold test (gc->freelist isnt NULL) *)
 | EDel (p : word)                                  (* explicit del: GC_Rem *)
 | ECollect.                                        (* forced: GC_Mark; GC_Sweep *)
 
@@ -131,6 +134,11 @@ Definition st0 : state :=
 
 Section Step.
   Variables (tls_recurses mar_guarded : bool).
+  (* fin_widens: GC_Set widens minptr/maxptr BEFORE its early return `if (gc->freelist isnt NULL) return;`
+     (true: every registered address is inside the window GC_Mark_Item prefilters with) or only after
+     it (false: an object allocated by a finaliser during a sweep is registered, the window is not
+     widened for it) — read off the C text by tools/genx_gcmark.py *)
+  Variable fin_widens : bool.
 
   Definition next_mitems (n : N) : N := (n + n / 2 + 1)%N.      (* gc->nitems + gc->nitems / 2 + 1 *)
 
@@ -168,8 +176,18 @@ Section Step.
     | _ => None
     end.
 
+  (* GC_Set called from a finaliser (gc->freelist isnt NULL): nitems++, insert, window; no collection *)
+  Definition fin_alloc_state (s : state) (p : word) (c : contents) (root : bool) : state :=
+    let s1 := alloc_state s p c root in
+    if fin_widens then s1
+    else {| st_heap := st_heap s1; st_reg := st_reg s1; st_order := st_order s1;
+            st_nitems := st_nitems s1; st_mitems := st_mitems s1;
+            st_minptr := st_minptr s; st_maxptr := st_maxptr s;
+            st_tls := st_tls s1; st_stack := st_stack s1 |}.
+
   Definition step (s : state) (e : event) : outcome (state * list word) :=
     match e with
+    | EFinAlloc p c root => Ok (fin_alloc_state s p c root, [])
     | EAlloc p c root =>
       let s1 := alloc_state s p c root in
       if (st_mitems s <? st_nitems s1)%N then do_collect s1 [p] else Ok (s1, [])
